@@ -6,67 +6,20 @@
    Invariant: the resolver's state is the specification's state with the scope stack set to the
    flattened environment (`with_env sts e`). *)
 From Coq Require Import String List NArith ZArith Bool Lia Arith.
-From Sylt Require Import Syntax.Resolved Resolve.PAst Resolve.Resolver Resolve.ResolveSpec.
+From Sylt Require Import Syntax.Resolved Resolve.PAst Resolve.Resolver Resolve.ResolveSpec Resolve.Wf.
 Import ListNotations.
 Local Open Scope string_scope.
 Local Open Scope list_scope.
 
-Definition fx : rflags := mkFlags true true true true.
+(* the three restore flags on; lf = is the root of `x.f` looked up in the scope first *)
+Definition fxg (lf : bool) : rflags := mkFlags true true true lf.
 
-(* ---- well-formedness (what the parser guarantees) ---- *)
-
-Definition all_with {A} (f : A -> bool) : list A -> bool :=
-  fix go (l : list A) : bool := match l with [] => true | x :: xs => f x && go xs end.
-
-Definition is_definition (s : pstmt) : bool := match s with PDefinition _ _ _ _ _ => true | _ => false end.
-
-Fixpoint wf_e (x : pexpr) : bool :=
-  match x with
-  | PGet a _ => wf_a a
-  | PAdd a b _ | PSub a b _ | PMul a b _ | PDiv a b _ | PComparison a _ b _ | PAssertEq a b _
-  | PAnd a b _ | POr a b _ => wf_e a && wf_e b
-  | PNeg a _ | PNot a _ | PParenthesis a _ => wf_e a
-  | PIf brs _ =>
-      all_with (fun b => match b with PIfBranch c body _ =>
-                  (match c with Some c => wf_e c | None => true end) && all_with wf_s body end) brs
-  | PCase tm brs ft _ =>
-      wf_e tm && all_with (fun b => match b with PCaseBranch _ _ body => all_with wf_s body end) brs
-      && (match ft with Some b => all_with wf_s b | None => true end)
-  | PFunction _ _ _ body _ _ => all_with wf_s body
-  | PBlob _ fields _ => all_with (fun f => wf_e (snd f)) fields
-  | PTuple vs _ | PList vs _ => all_with wf_e vs
-  | _ => true
-  end
-with wf_a (a : passign) : bool :=
-  match a with
-  | ARead _ _ => true
-  | AVariant x _ v _ => wf_a x && wf_e v
-  | ACall f args _ => wf_a f && all_with wf_e args
-  | AArrowCall x f args _ => wf_e x && wf_a f && all_with wf_e args
-  | AAccess x _ _ => wf_a x
-  | AIndex x i _ => wf_a x && wf_e i
-  | AExpression e _ => wf_e e
-  end
-with wf_s (s : pstmt) : bool :=
-  match s with
-  | PAssignment _ t v _ => wf_a t && wf_e v
-  | PDefinition _ _ _ v _ => wf_e v
-  | PLoop c b _ => wf_e c && negb (is_definition b) && wf_s b
-  | PRet (Some v) _ => wf_e v
-  | PBlock ss _ => all_with wf_s ss
-  | PStatementExpression v _ => wf_e v
-  | _ => true
-  end.
-
-Definition wf_top (s : pstmt) : bool :=
-  match s with
-  | PDefinition _ _ _ _ _ => wf_s s
-  | PBlobDef _ _ _ _ _ | PEnumDef _ _ _ _ | PExternalDefinition _ _ _ _ | PUse _ _ _ _ | PFromUse _ _ _ _
-  | PEmptyStatement _ => true
-  | _ => false
-  end.
-
-Definition wf_ast (ast : past) : bool := all_with (fun m => all_with wf_top (m_stmts m)) ast.
+Section LF.
+Variable lf : bool.
+Notation fx := (fxg lf).
+Notation expr_s := (expr_s lf).
+Notation assign_s := (assign_s lf).
+Notation stmt_s := (stmt_s lf).
 
 (* ---- the state correspondence ---- *)
 
@@ -392,7 +345,7 @@ Lemma ref_ifb e b :
 Proof.
   destruct b as [cond body sp]. intros Hw He. apply andb_true_iff in Hw as [Hc Hb]. cbn [if_branch_with].
   eapply refines_bind; [apply ref_optM; assumption|]. intros c.
-  cbn [truncate_if if_truncates fx].
+  cbn [truncate_if if_truncates fxg].
   apply (ref_new_scope e body (fun l => ret (IfBranch c l sp)) (fun l => ret (IfBranch c l sp)) Hb He).
   intros l. apply refines_ret.
 Qed.
@@ -408,7 +361,7 @@ Lemma ref_cb e b :
          ret (CaseBranch (i_name pat) (i_span pat) v' body' (i_span pat))
      end).
 Proof.
-  destruct b as [pat v body]. intros Hb He. cbn [case_branch_with truncate_if case_truncates fx].
+  destruct b as [pat v body]. intros Hb He. cbn [case_branch_with truncate_if case_truncates fxg].
   destruct v as [i|]; cbn [optM].
   - intros sts. rewrite bind_stack_len. rewrite !bind_eq. unfold push_var. rewrite !bind_eq.
     unfold new_var, new_var_g. cbv beta zeta iota. rewrite !bind_eq.
@@ -486,7 +439,7 @@ Proof.
     intros brs'.
     eapply refines_bind; [|intros y; apply refines_ret].
     destruct fall_through as [ft|]; cbn [optM]; [|apply refines_ret].
-    cbn [truncate_if else_truncates fx].
+    cbn [truncate_if else_truncates fxg].
     eapply refines_bind with (e1 := e); [|intros y; apply refines_ret].
     (* `len <- stack_len ;; b' <- block ;; _ <- truncate len ;; ret b'` *)
     intros sts.
@@ -545,7 +498,7 @@ Proof.
     eapply refines_bind; [apply ref_args; assumption|]. intros y. apply refines_ret.
   - (* AAccess *)
     eapply refines_bind.
-    { apply refines_lift. intros sts. unfold access_namespace. cbn [access_local_first fx andb].
+    { apply refines_lift. intros sts. unfold access_namespace. cbn [access_local_first fxg andb].
       rewrite namespace_list_env. reflexivity. }
     intros ns. destruct ns as [ns|].
     + eapply refines_bind; [apply refines_lift; reflexivity|]. intros o.
@@ -813,9 +766,9 @@ Lemma with_env_nil st : st_stack st = [] -> st = with_env st [].
 Proof. destruct st; cbn; intros ->; reflexivity. Qed.
 
 (* resolve_refines, for the resolver with all four flags on *)
-Theorem resolve_refines ast : wf_ast ast = true -> resolve fx ast = resolve_spec ast.
+Theorem resolve_refines_g ast : wf_ast ast = true -> resolve fx ast = resolve_spec_g lf ast.
 Proof.
-  intros Hw. unfold resolve, resolve_spec, resolve_fuel, resolve_spec_fuel, resolve_m, resolve_spec_m.
+  intros Hw. unfold resolve, resolve_spec_g, resolve_fuel, resolve_spec_fuel, resolve_m, resolve_spec_m.
   rewrite !bind_eq.
   destruct (for_each insert_namespace_and_add_definitions ast (init_state ast)) as [[[] s1]| | |] eqn:E1; try reflexivity.
   rewrite !bind_eq.
@@ -832,6 +785,27 @@ Proof.
   destruct (seq_with (stmt_s (fuel_of ast)) [] (flat_map m_stmts ast) s2) as [[out s3]| | |]; cbn [on_env]; try reflexivity.
   rewrite !bind_eq. unfold lift. rewrite lookup_global_env.
   destruct (lookup_global s3 0 "start") as [[nm|]| | |]; reflexivity.
+Qed.
+
+End LF.
+
+(* resolve_refines, for the resolver with all four flags on *)
+Theorem resolve_refines ast : wf_ast ast = true -> resolve (fxg true) ast = resolve_spec ast.
+Proof. exact (resolve_refines_g true ast). Qed.
+
+(* with the three restore flags on and the namespace table consulted first for `x.f` (the code as it is
+   after the scope fixes), the code is the specification WITH that quirk *)
+Theorem resolve_refines_nsfirst ast : wf_ast ast = true -> resolve (fxg false) ast = resolve_spec_nsfirst ast.
+Proof. exact (resolve_refines_g false ast). Qed.
+
+Definition restores (fl : rflags) : bool := if_truncates fl && case_truncates fl && else_truncates fl.
+
+(* for whatever flags the code has: once the three restore flags are on, the code is the specification
+   with the same choice for `x.f` *)
+Theorem resolve_refines_restores fl :
+  restores fl = true -> forall ast, wf_ast ast = true -> resolve fl ast = resolve_spec_g (access_local_first fl) ast.
+Proof.
+  destruct fl as [[] [] [] lf]; cbn; intros H; try discriminate H. exact (resolve_refines_g lf).
 Qed.
 
 (* for whatever flags the code has: once all four are on, the code is the specification *)
